@@ -1,2 +1,93 @@
+"""C03.unsafe — raw memory accesses of the VM.
+
+(a) inventory: every unchecked access (get_unchecked*, from_raw_parts*, pointer add/offset, unwrap_unchecked,
+    reference/slice transmutes) in runtime::vm* is keyed `function|kind|count`; each key must be audited (the safety
+    of most of them rests on C05's layout argument and cannot be discharged locally).  A new raw access, or a changed
+    count, is reported.
+(b) the ring buffer's unchecked indices are discharged mechanically: both indices are `… % len` of the indexed
+    slice's own length and the zero-length case returns before the access."""
+from .. import roles
+from ..facts import KIND, callee
+from ..symex import PathLimit, SymEx, show
+
+RAW = ("get_unchecked", "get_unchecked_mut", "from_raw_parts", "from_raw_parts_mut", "slice_from_raw_parts", "slice_from_raw_parts_mut", "unwrap_unchecked", "offset", "add", "sub", "copy_nonoverlapping", "read", "write")
+
+
+def raw_sites(facts):
+    out = {}
+    for f in facts.crate(roles.LANG).fns:
+        if "::runtime::vm" not in f.path or f.kind == "promoted" or "::test" in f.path:
+            continue
+        root = f.root.split("::", 1)[1]
+        for b, t in f.calls():
+            c = callee(t) or ""
+            n = c.split("::")[-1]
+            if n not in RAW:
+                continue
+            if not ("ptr" in c or "slice" in c or "unchecked" in n or "SlotMap" in c or "Option" in c or "Vec" in c or "mem::" in c):
+                continue
+            if n in ("add", "sub", "offset", "read", "write") and "ptr" not in c:
+                continue
+            if t[1] and any(("format" in x) or ("assert" in x) for x in t[1]):
+                continue
+            out.setdefault((root, n), []).append((f, t))
+        for b, s in f.all_stmts():
+            if s[KIND] == "a" and s[5][0] == "cast" and s[5][1] == "Transmute":
+                fr, to = s[5][3], s[5][4]
+                # compiler-inserted pointer checks and Box internals are not program accesses
+                if to == "usize" or "MaybeUninit" in fr or "NonNull" in fr:
+                    continue
+                if s[1] and any(("assert" in x) or ("format" in x) for x in s[1]):
+                    continue
+                kind = "transmute %s->%s" % (fr.split("::")[-1][:24], to.split("::")[-1][:24])
+                out.setdefault((root, kind), []).append((f, s))
+    return out
+
+
+def rule_inventory(ck, facts):
+    R = "C03.unsafe"
+    ck.rule(R, "every unchecked memory access in runtime::vm* is in the audited inventory (function, kind, count); the ring buffer's unchecked indices are reduced modulo the indexed slice's own length with the empty case excluded")
+    sites = raw_sites(facts)
+    ck.floor(R, "raw_access_groups", len(sites), 20)
+    for (root, kind), lst in sorted(sites.items()):
+        f, item = lst[0]
+        ck.bad(R, "raw|%s|%s|x%d" % (root, kind, len(lst)), "%d unchecked access(es) `%s` in %s: not audited (its bound must come from a check or from the state-layout argument of C05)" % (len(lst), kind, root), f.where(item))
+
+
+def rule_ringbuffer(ck, facts):
+    R = "C03.unsafe"
+    lang = facts.crate(roles.LANG)
+    cands = [f for f in lang.fns if "::runtime::vm::ringbuffer::" in f.path and any((callee(t) or "").split("::")[-1] in ("get_unchecked", "get_unchecked_mut") for _, t in f.calls())]
+    ck.require(R, len(cands) >= 1, "anchor|ringbuffer", "ring buffer function with unchecked indexing not found")
+    for f in cands:
+        sx = SymEx(f, max_paths=32, facts=facts)
+        try:
+            paths = sx.run(0)
+        except PathLimit:
+            paths = sx.paths
+        n = 0
+        for p in paths:
+            accs = [e for e in p.events if e[0] == "call" and e[1].split("::")[-1] in ("get_unchecked", "get_unchecked_mut")]
+            if not accs:
+                continue
+            # the zero-length guard: a cond `len == 0` false on this path
+            guard = any(e[0] == "cond" and e[1][0] == "bin" and e[1][1] == "eq" and e[1][3] == ("k", 0, "u64") for e in p.events)
+            for a in accs:
+                n += 1
+                idx = a[2][1]
+                x = idx
+                while x[0] == "cast":
+                    x = x[2]
+                is_rem = x[0] == "bin" and x[1] == "rem"
+                modulus_is_len = is_rem and ("ptrmeta" in repr(x[3]) or "len" in repr(x[3]))
+                key = "ringbuffer|%s|%s" % (f.short.split("::")[-1], a[1].split("::")[-1])
+                if is_rem and modulus_is_len and guard:
+                    ck.ok(R, key, {"index": show(idx)[:120], "guard": "len != 0"})
+                else:
+                    ck.bad(R, key, "%s: unchecked ring-buffer index %s is not reduced modulo the buffer's own length (or the empty buffer is not excluded): out-of-bounds read/write of the state storage" % (f.short, show(idx)[:100]), f.where(a[3]))
+        ck.floor(R, "ringbuffer_unchecked_accesses", n, 2)
+
+
 def run(ck, facts, cg, tier):
-    pass
+    rule_inventory(ck, facts)
+    rule_ringbuffer(ck, facts)
